@@ -65,7 +65,9 @@ Definition run_request (req : sx) : sx :=
       | _ => A (-1) end
     else if c =? 6 then                              (* AnsiSetting flags *)
       match args with
-      | [t] => L [sx_of_bool (valid (str_of_sx t)); sx_of_bool (parsable (str_of_sx t))]
+      | [t] => L [sx_of_bool (valid (str_of_sx t)); sx_of_bool (parsable (str_of_sx t));
+                  match single_effect (str_of_sx t) with Some e => sx_of_effect e | None => A (-1) end;
+                  sx_of_bool (wf_setting (str_of_sx t))]
       | _ => A (-1) end
     else if c =? 7 then                              (* scrub form *)
       match args with
